@@ -260,11 +260,12 @@ Record session := mk_session {
   s_esmtp : bool;       (* xmitstat.esmtp *)
   s_apos : bool;        (* an apostrophe in the local part of MAIL FROM *)
   s_bounce : bool;      (* xmitstat.mailfrom.len == 0 *)
-  s_spaces : N;         (* blanks between "RCPT TO:" and '<'  (xmitstat.spacebug = this != 0) *)
+  s_spaces : N;         (* blanks between "RCPT TO:" and '<' of this command *)
+  s_prebug : bool;      (* xmitstat.spacebug when the command arrives: recorded by MAIL FROM or an earlier RCPT TO *)
   s_bytes : Z           (* xmitstat.thisbytes *)
 }.
 
-Definition default_session : session := mk_session 0 false false false false false 0 0.
+Definition default_session : session := mk_session 0 false false false false false 0 false 0.
 
 Definition passed : fres * option bytes := (FPassed, None).
 
@@ -285,8 +286,16 @@ Definition cb_usersize (s : session) (uc dc gc : list bytes) : fres * option byt
 Definition to_int (z : Z) : Z :=
   let m := (z mod 4294967296)%Z in if (m <? 2147483648)%Z then m else (m - 4294967296)%Z.
 
-Definition cb_smtpbugs (s : session) (uc dc gc : list bytes) : fres * option bytes :=
-  if N.eqb (s_spaces s) 0 then passed else
+(** the head of smtp_rcpt: blanks between ':' and '<' are counted in bugoffset, then either
+    "if (bugoffset != 0) xmitstat.spacebug = 1;" (SPACEBUG_STICKY) or an assignment of (bugoffset != 0).
+    Result: xmitstat.spacebug as the filters see it. *)
+Definition rcpt_spacebug (s : session) : bool :=
+  let bug := negb (N.eqb (s_spaces s) 0) in
+  if SPACEBUG_STICKY then (if bug then true else s_prebug s) else bug.
+
+(** [spacebug]: xmitstat.spacebug *)
+Definition cb_smtpbugs (spacebug : bool) (s : session) (uc dc gc : list bytes) : fres * option bytes :=
+  if negb spacebug then passed else
   let filter := to_int (setting_value (getsettingglobal uc dc gc KEY_SMTP_SPACE_BUG)) in
   if (filter <=? 0)%Z then passed else
   let reject := (FDeniedMsg, Some REPLY_SMTPBUGS) in
@@ -356,25 +365,25 @@ Definition ID_USERSIZE : nat := 14.
 (** "554 5.7.1": what the stand-in sends before it returns FILTER_DENIED_WITH_MESSAGE *)
 Definition STANDIN_MSG : bytes := [53; 53; 52; 32; 53; 46; 55; 46; 49]%N.
 
-Definition run_slot (id : nat) (sl : slot) (s : session) (uc dc gc : list bytes) : option (fres * option bytes) :=
+Definition run_slot (spacebug : bool) (id : nat) (sl : slot) (s : session) (uc dc gc : list bytes) : option (fres * option bytes) :=
   match sl with
   | Standin r => Some (r, if fres_eqb r FDeniedMsg then Some STANDIN_MSG else None)
   | RealFilter =>
       if Nat.eqb id ID_BOOLEAN then Some (cb_boolean s uc dc gc)
-      else if Nat.eqb id ID_SMTPBUGS then Some (cb_smtpbugs s uc dc gc)
+      else if Nat.eqb id ID_SMTPBUGS then Some (cb_smtpbugs spacebug s uc dc gc)
       else if Nat.eqb id ID_SPF then Some (cb_spf s uc dc gc)
       else if Nat.eqb id ID_USERSIZE then Some (cb_usersize s uc dc gc)
       else None
   end.
 
-(** session field: spf, flags, blanks, size (2 bytes, big endian); absent = all zero *)
+(** session field: spf, flags (bit 5 or 6: the space-bug flag is already set), blanks, size (2 bytes, big endian); absent = all zero *)
 Definition decode_session (l : bytes) : option session :=
   match l with
   | [] => Some default_session
   | [a; b; c; d; e] =>
       if N.leb c 8 then
         Some (mk_session (N.land a 15) (N.testbit b 0) (N.testbit b 1) (N.testbit b 2) (N.testbit b 3) (N.testbit b 4) c
-                         (Z.of_N (d * 256 + e)))
+                         (N.testbit b 5 || N.testbit b 6) (Z.of_N (d * 256 + e)))
       else None
   | _ => None
   end.
@@ -400,8 +409,8 @@ Fixpoint collect_msgs (l : list (fres * option bytes)) : list bytes :=
   end.
 
 (** the results of all sixteen filters (indexed by canonical id) for this case *)
-Definition all_results (slots : list slot) (s : session) (uc dc gc : list bytes) : option (list (fres * option bytes)) :=
-  sequence (map (fun id => run_slot id (nth id slots (Standin FPassed)) s uc dc gc) (seq 0 NFILTERS)).
+Definition all_results (spacebug : bool) (slots : list slot) (s : session) (uc dc gc : list bytes) : option (list (fres * option bytes)) :=
+  sequence (map (fun id => run_slot spacebug id (nth id slots (Standin FPassed)) s uc dc gc) (seq 0 NFILTERS)).
 
 (** [outcomes]: indexed by canonical filter id *)
 Definition rcpt_case (outcomes : bytes) (umode : N) (ufile : bytes) (dmode : N) (dfile : bytes)
@@ -415,7 +424,7 @@ Definition rcpt_case (outcomes : bytes) (umode : N) (ufile : bytes) (dmode : N) 
           match load_configs umode ufile dmode dfile with
           | None => CCtrlErr
           | Some (uc, dc) =>
-              match all_results slots s uc dc gc with
+              match all_results (rcpt_spacebug s) slots s uc dc gc with
               | None => CBadCase
               | Some results =>
                   let inorder := map (fun id => nth id results passed) RCPT_CBS in
